@@ -78,6 +78,7 @@ def strip_unit(chk, t, unit, anchor, where):
 def run(chk, tier):
     prog, info = common.program("all")
     common.note_extraction(chk, info, prog)
+    common.vacuity(chk, ['VN-bits', 'R-TABLE'])
     chk.explanation = ("R-LAYOUT on the 11-halfword header and the 23-halfword cut block; the decode loop is summarised by value numbering (bound "
                        "0..zext(number_of_elevation_cuts), one push of this iteration's decoded block per iteration, every failure an error return); each "
                        "flag/sub-field accessor is reduced to a per-bit provenance vector and compared with the documented bit positions; each scaled "
